@@ -51,6 +51,8 @@ impl<T: Sync + Send + 'static> Worker<T> {
     }
     pub(crate) fn update_config(&mut self, config: Config) {
         for matcher in self.matchers.0.iter_mut() {
+            #[cfg(nucleo_verif)]
+            crate::verif::hb::plain_write(matcher.get() as usize, "Worker::update_config");
             matcher.get_mut().config = config.clone();
         }
     }
